@@ -215,7 +215,7 @@ def degPass (env : DegEnv) (blocks : List Block) : List Block × DegEnv × Bool 
     if c then (bs ++ [b], env, true)
     else
       let (ss, env', c') := b.stmts.foldl step ([], env, false)
-      (bs ++ [{ stmts := ss }], env', c')) ([], env, false)
+      (bs ++ [{ b with stmts := ss }], env', c')) ([], env, false)
 
 /-- the environment `propagate_degrees` starts from -/
 def degInit (cfg : Cfg) : DegEnv :=
@@ -373,17 +373,24 @@ def valStmt (env : ValEnv) : Stmt → Stmt × ValEnv × Bool
     let (r', c2) := if c1 then (r, true) else valExpr env r
     (.ceq l' r', env, c2)
 
+/-- a phi statement with fewer arguments than the block has predecessors: `BasicBlock::propagate_values`
+    skips it (it may lack an argument for an incoming edge on which the variable is still unassigned) -/
+def phiShort (npreds : Nat) : Stmt → Bool
+  | .sub _ _ _ _ (.phi _ args) => decide (args.length < npreds)
+  | _ => false
+
 def valPass (env : ValEnv) (blocks : List Block) : List Block × ValEnv × Bool :=
-  let step (acc : List Stmt × ValEnv × Bool) (s : Stmt) : List Stmt × ValEnv × Bool :=
+  let step (n : Nat) (acc : List Stmt × ValEnv × Bool) (s : Stmt) : List Stmt × ValEnv × Bool :=
     let (done, env, c) := acc
     if c then (done ++ [s], env, true)
+    else if phiShort n s then (done ++ [s], env, false)
     else let (s', env', c') := valStmt env s; (done ++ [s'], env', c')
   blocks.foldl (fun (acc : List Block × ValEnv × Bool) b =>
     let (bs, env, c) := acc
     if c then (bs ++ [b], env, true)
     else
-      let (ss, env', c') := b.stmts.foldl step ([], env, false)
-      (bs ++ [{ stmts := ss }], env', c')) ([], env, false)
+      let (ss, env', c') := b.stmts.foldl (step b.npreds) ([], env, false)
+      (bs ++ [{ b with stmts := ss }], env', c')) ([], env, false)
 
 def valLoop : Nat → ValEnv → List Block → List Block × Bool
   | 0, _, bs => (bs, false)
